@@ -111,15 +111,17 @@ func (frameComp) Gen(r *vh.RNG, n int, emit func(op string, tags ...string)) {
 				b = append(b, varintW(legalW(r, protocol.FrameTypeTCPRequest), protocol.FrameTypeTCPRequest)...)
 			}
 			b = append(b, varintW(legalW(r, uint64(al)), uint64(al))...)
-			b = append(b, r.ASCII(al)...)
+			addr := r.ASCII(al)
+			b = append(b, addr...)
 			b = append(b, varintW(legalW(r, uint64(pl)), uint64(pl))...)
 			b = append(b, r.Bytes(pl)...)
-			b = append(b, r.Bytes(r.Intn(24))...)
+			trail := r.Intn(24)
+			b = append(b, r.Bytes(trail)...)
 			op := "rdreq"
 			if framed {
 				op = "rdframed"
 			}
-			emit(op+" "+vh.Chunks(r.Chunk(b)), "req-valid")
+			emit(fmt.Sprintf("%s %s exp=ok:%s:%d", op, vh.Chunks(r.Chunk(b)), vh.Hex(addr), trail), "req-valid")
 		case k < 45: // valid response
 			ml := r.Pick(append([]int{0, 0}, addrLens...))
 			if r.Chance(1, 3) {
@@ -135,11 +137,13 @@ func (frameComp) Gen(r *vh.RNG, n int, emit func(op string, tags ...string)) {
 			}
 			b := []byte{st}
 			b = append(b, varintW(legalW(r, uint64(ml)), uint64(ml))...)
-			b = append(b, r.Bytes(ml)...)
+			msg := r.Bytes(ml)
+			b = append(b, msg...)
 			b = append(b, varintW(legalW(r, uint64(pl)), uint64(pl))...)
 			b = append(b, r.Bytes(pl)...)
-			b = append(b, r.Bytes(r.Intn(24))...)
-			emit("rdresp "+vh.Chunks(r.Chunk(b)), "resp-valid")
+			trail := r.Intn(24)
+			b = append(b, r.Bytes(trail)...)
+			emit(fmt.Sprintf("rdresp %s exp=ok:%s:%d", vh.Chunks(r.Chunk(b)), vh.Hex(msg), trail), "resp-valid")
 		case k < 57: // over-limit declared lengths
 			var b []byte
 			op := "rdreq"
@@ -171,7 +175,7 @@ func (frameComp) Gen(r *vh.RNG, n int, emit func(op string, tags ...string)) {
 				b = append(b, varintW(legalW(r, v), v)...)
 				b = append(b, r.Bytes(r.Intn(40))...)
 			}
-			emit(op+" "+vh.Chunks(r.Chunk(b)), "overlimit")
+			emit(op+" "+vh.Chunks(r.Chunk(b))+" exp=proto", "overlimit")
 		case k < 70: // truncation of a valid frame at a random offset
 			al := r.Pick([]int{1, 2, 63, 64, 100})
 			pl := r.Pick([]int{0, 1, 63, 64, 100})
@@ -275,7 +279,60 @@ func bigFlag(n uint64) string {
 	return "0"
 }
 
-func (frameComp) Run(op string) vh.Result {
+// expectation carried by generated ops (model-free: the generator knows what it built):
+//	exp=ok:<hex of address|message>:<trailing bytes>   a valid frame followed by a trailing payload
+//	exp=proto                                           an over-limit / empty declared length
+func checkExp(f []string, out string, total int) []string {
+	if len(f) < 3 || !strings.HasPrefix(f[2], "exp=") {
+		return nil
+	}
+	e := strings.TrimPrefix(f[2], "exp=")
+	if e == "proto" {
+		if !strings.HasPrefix(out, "proto ") {
+			return []string{"an over-limit or empty declared length was not rejected as a protocol error: " + out}
+		}
+		return nil
+	}
+	p := strings.Split(e, ":")
+	want := p[1]
+	var trail int
+	fmt.Sscan(p[2], &trail)
+	o := strings.Fields(out)
+	if o[0] != "ok" {
+		return []string{"a valid frame was not read back: " + out}
+	}
+	got := o[len(o)-2]
+	if strings.HasPrefix(got, "consumed=") { // rdframed has no big= suffix
+		got = o[len(o)-1]
+	}
+	_ = got
+	var orc []string
+	val := o[1]
+	if f[0] == "rdresp" {
+		val = o[2]
+	}
+	if val != want {
+		orc = append(orc, "a valid frame was read back with a different address/message")
+	}
+	if !strings.Contains(out, fmt.Sprintf(" consumed=%d", total-trail)) {
+		orc = append(orc, fmt.Sprintf("reading did not consume exactly the frame (frame %d bytes): %s", total-trail, out))
+	}
+	return orc
+}
+
+func (c frameComp) Run(op string) vh.Result {
+	res := c.run(op)
+	f := strings.Fields(op)
+	if len(f) >= 3 && strings.HasPrefix(f[2], "exp=") {
+		res.Oracle = append(res.Oracle, checkExp(f, res.Out, totalLen(vh.ParseChunks(f[1])))...)
+		if res.ModelOp == "" {
+			res.ModelOp = f[0] + " " + f[1]
+		}
+	}
+	return res
+}
+
+func (frameComp) run(op string) vh.Result {
 	f := strings.Fields(op)
 	var orc []string
 	switch f[0] {
